@@ -356,8 +356,14 @@ func GenGrammarMetric(t *rapid.T, depth int, allowYear bool) *gen.Metric {
 				return &gen.Metric{Kind: "literal", Value: v, ValueText: sign + txt}
 			}
 			o := GenGrammarMetric(t, depth-1, allowYear)
-			// Operator grouping is C13's subject: nested operations are parenthesised.
+			// Operator grouping is C13's subject: nested operations are parenthesised, except
+			// that the right operand of a set operator may be a bare tighter-binding operation
+			// (which may itself start with a scalar: "a and 2 == b").
 			if o.Kind == "binop" && o.Parens == 0 {
+				// (not over two scalars: Loki folds "1+2" into a scalar, which a set operator rejects)
+				if isSet(m.Op) && label == "gm-r" && !isSet(o.Op) && !(o.L.Kind == "literal" && o.R.Kind == "literal") && rapid.Bool().Draw(t, label+"-bare") {
+					return o
+				}
 				o.Parens = 1
 			}
 			return o
